@@ -99,14 +99,17 @@ def run(cmd, cwd=None, timeout=None, env=None):
     return p.returncode, p.stdout, p.stderr, time.time() - t0
 
 
-def extract_unit(unit, repo, scratch):
+def extract_unit(unit, repo, scratch, degrade=None):
     tpl = os.path.join(VERIF, 'contracts', unit + '.vrs')
     scan_unit_template(tpl)
     gen = os.path.join(scratch, unit + '.gen.rs')
     mp = os.path.join(scratch, unit + '.map.json')
     if not os.path.exists(EXTRACT):
         raise Undecided('vp-extract is not built (run MANIFEST.setup_cmd)')
-    rc, out, err, _ = run([EXTRACT, repo, tpl, gen, mp], timeout=120)
+    env = dict(os.environ)
+    if degrade:
+        env['VP_EXTRACT_DEGRADE'] = ','.join(degrade)
+    rc, out, err, _ = run([EXTRACT, repo, tpl, gen, mp], timeout=120, env=env)
     if rc != 0:
         raise Undecided('extraction of unit %s failed: %s' % (unit, err.strip() or out.strip()))
     return gen, json.load(open(mp))
@@ -161,11 +164,11 @@ def nearest_marker(markers, line, col, lines=None):
 
 
 class UnitRun:
-    def __init__(self, unit, repo, scratch):
+    def __init__(self, unit, repo, scratch, degrade=None):
         self.unit = unit
         self.repo = repo
         self.scratch = scratch
-        self.gen, self.map = extract_unit(unit, repo, scratch)
+        self.gen, self.map = extract_unit(unit, repo, scratch, degrade)
         self.file = os.path.join(scratch, unit + '.rs')
         self.off = assemble(os.path.join(VERIF, 'spec', 'la.rs'), os.path.join(VERIF, 'spec', 'prelude.rs'), self.gen, self.file)['unit']
         self.text = open(self.file).read()
@@ -211,6 +214,35 @@ class UnitRun:
     def clause_tags_in_fn(self, f):
         h = self.hdr.get(f['id'], f['a0'])
         return [(ml, mc, mid, tags) for (ml, mc, mid, tags) in self.markers if h <= ml <= f['a1']]
+
+
+def verify_unit(unit, repo, scratch, extra):
+    """extract + verify; a body the verifier rejects outright (unsupported construct, type error after rewriting) is degraded
+    to an assumed contract and the unit is verified again, so that the other functions stay decidable"""
+    degrade = []
+    for attempt in range(4):
+        ur = UnitRun(unit, repo, scratch, degrade)
+        res = verus(ur.file, scratch, list(extra))
+        rc, r, diags, err, wall, cmd = res
+        bad = []
+        for d in diags:
+            if d.get('level') != 'error' or classify(d.get('message', '')) is not None:
+                continue
+            msg = d.get('message', '')
+            if msg.startswith('aborting due to') or msg.startswith('For more information'):
+                continue
+            for sp in d.get('spans', []):
+                if os.path.basename(sp['file_name']) != os.path.basename(ur.file):
+                    continue
+                f = ur.fn_at(sp['line_start'])
+                # only errors inside an extracted BODY (not in its hand-written header) are the code's doing
+                if f and not f.get('degraded') and sp['line_start'] >= f['a0'] and f['id'] not in degrade and f['id'] not in bad:
+                    bad.append(f['id'])
+        if not bad:
+            return ur, res
+        log('verifier rejected the body of %s: degraded, verifying the rest' % ', '.join(bad))
+        degrade += bad
+    return ur, res
 
 
 def classify(msg):
@@ -460,12 +492,17 @@ def _main(pid, P, tier, repo, seed, scratch, ev_path, t0):
             extra += ['--smt-option', 'smt.random_seed=%d' % (seed % 100000)]
         if tier == 'thorough':
             extra += ['--rlimit', '40']
+        pend = {}
         for u in units:
             if ('ur', u) not in cache:
-                ur = UnitRun(u, repo, scratch)
-                cache[('ur', u)] = ur
-                cache[('verus', u)] = ex.submit(verus, ur.file, scratch, list(extra))
-                cache[('probe', u)] = ex.submit(check_probes, ur)
+                pend[u] = ex.submit(verify_unit, u, repo, scratch, list(extra))
+        for u, fut in pend.items():
+            ur, res = fut.result()
+            cache[('ur', u)] = ur
+            f2 = ex.submit(lambda r=res: r)
+            cache[('verus', u)] = f2
+            cache[('probe', u)] = ex.submit(check_probes, ur)
+        for u in units:
             urs.append(cache[('ur', u)])
         kfut = ex.submit(vpkani.run_harnesses, P, tier, repo, pid)
         la_verified, la_wall = cache['la'].result()
